@@ -1212,8 +1212,8 @@ def selftest(seed):
     tamper('chain criterion dropped by the judge only', dbase, lambda e: e['o'].update(unit='molecule'))
     tamper('selection narrowed by the judge only', dbase, lambda e: e['o'].update(names=['BB']))
     tamper('minimum force raised by the judge only', dbase, lambda e: e['o'].update(minf=e['o']['base'] - 5 * MICRO))
-    tamper('decayed constant -0.01', dbase, lambda e: e['f']['bonds'][7].update(k=e['f']['bonds'][7]['k'] - 10000)
-           if e['f']['bonds'][7]['k'] < e['o']['base'] else e['f']['bonds'][3].update(k=e['f']['bonds'][3]['k'] - 10000))
+    tamper('decayed constant -1.0', dbase, lambda e: next(b for b in e['f']['bonds'] if b['k'] < e['o']['base'] - 5 * MICRO).update(
+        k=next(b for b in e['f']['bonds'] if b['k'] < e['o']['base'] - 5 * MICRO)['k'] - MICRO))
     tamper('network without request', obase, lambda e: e['f']['bonds'].append({'a': 1, 'b': 9, 'len': 5000, 'k': 700 * MICRO}))
     tamper('rubber-band line inside a conditional block', base, lambda e: e['f'].update(strays=1))
     tamper('second molecule split off', base, lambda e: [a.update(mol=2) for a in e['f']['atoms'] if a['chain'] == 'B'])
